@@ -99,3 +99,6 @@ func VerifBlockStarts(r *Reader) []uint64 {
 	}
 	return out
 }
+
+// VerifReload is the reload Stack.Add performs after a lock failure.
+func VerifReload(st *Stack) { st.reload(true) }
